@@ -188,6 +188,9 @@ func genAdChains(c *vlib.Ctx) {
 						case counter%17 == 0:
 							cfg.Hook, call.Hook = "none", "nominate"
 						}
+						if counter%19 == 0 {
+							cfg.Retry = 2 // retryable HTTP client (+ AddrTTL, Topic): same outcome
+						}
 						sc.Pre = subsetOf(n, (counter*7)%(1<<n))
 						sc.Cfg, sc.Calls = cfg, []CallJ{call}
 						// the group: everything that determines the requested segment
@@ -472,5 +475,156 @@ func genLastKnown(c *vlib.Ctx) {
 				}
 			}
 		}
+	}
+}
+
+// ---------------------------------------------------------------------------
+// a sync fails part way (the publisher has withdrawn a block), the block comes back, and the
+// SAME subscriber (same cached Syncer) syncs again: the successful sync must report exactly
+// its segment, once each, whatever the failed attempt traversed
+
+func genRetry(c *vlib.Ctx) {
+	// advertisements 1..5 (5 newest), entry chunks 6..8 (8 first)
+	var w []BlockJ
+	for i := 1; i <= 5; i++ {
+		w = append(w, BlockJ{T: "ad", Prev: i - 1})
+	}
+	for i := 6; i <= 8; i++ {
+		next := i - 1
+		if i == 6 {
+			next = 0
+		}
+		w = append(w, BlockJ{T: "chunk", Next: next})
+	}
+	ch, ch2 := []int{5, 4, 3, 2, 1}, []int{8, 7, 6}
+	ad := func(h int) CallJ { return CallJ{T: "ad", PubHead: h} }
+	hide := func(rs ...int) CallJ { return CallJ{T: "hide", Hide: rs} }
+	ent := func(e int) CallJ { return CallJ{T: "entries", Ent: e} }
+	counter := 0
+	for _, seg := range []int64{-1, 1, 2} {
+		for hid := 1; hid <= 4; hid++ {
+			for _, hook := range []string{"nominate", "general"} {
+				counter++
+				cfg := defaultCfg
+				cfg.SegDepth, cfg.Hook = seg, hook
+				run := func(calls ...CallJ) {
+					runScn(c, Scn{World: w, Cfg: cfg, Pre: subsetOf(5, (counter*3)%4), Oracle: "adseq", Chain: ch, Chain2: ch2, Calls: calls}, false)
+				}
+				// fail, restore, retry
+				run(hide(hid), ad(5), hide(), ad(5))
+				// fail twice, then a retry with another depth / stop / head
+				run(hide(hid), ad(5), ad(5), hide(), CallJ{T: "ad", PubHead: 5, Depth: 2}, ad(5))
+				run(hide(hid), ad(5), hide(), CallJ{T: "ad", PubHead: 5, Head: 4, Stop: 1}, ad(5))
+				if hook == "nominate" {
+					// the Syncer is shared by advertisement and entries syncs of the publisher
+					run(hide(hid), ad(5), hide(), ent(8), ad(5))
+					run(hide(7), ent(8), hide(), ad(5), ent(8))
+					run(hide(hid, 6), ad(5), ent(8), hide(), ent(7), ad(5), ent(8))
+				}
+			}
+		}
+	}
+}
+
+// ---------------------------------------------------------------------------
+// the library's own hook, dagsync.MakeGeneralBlockHook, drives the segmented sync
+
+func genGeneralHook(c *vlib.Ctx) {
+	counter := 0
+	for n := 1; n <= c.Pick(7, 9); n++ {
+		w, ch := adWorld(n)
+		for seg := int64(1); seg <= int64(n)+1; seg++ { // (n-1) mod seg takes every residue, incl. 0, 1, seg-1
+			for _, stop := range []int{0, 1, 2} {
+				if stop >= n && stop != 0 {
+					continue
+				}
+				for _, lim := range []int64{0, int64(n) - 1, int64(n)} {
+					if lim < 0 || (lim == 0 && stop == 2) {
+						continue
+					}
+					counter++
+					cfg := defaultCfg
+					call := CallJ{T: "ad", PubHead: n, Stop: stop}
+					if counter%2 == 0 {
+						cfg.Hook, cfg.SegDepth = "general", seg
+					} else {
+						cfg.Hook, call.Hook, call.Seg = "silent", "general", seg
+					}
+					cfg.AdsDepth = lim
+					runScn(c, Scn{World: w, Cfg: cfg, Pre: subsetOf(n, (counter*5)%(1<<n)), Oracle: "adchain", Chain: ch,
+						Group: fmt.Sprintf("general|n=%d|stop=%d|lim=%d", n, stop, lim),
+						Calls: []CallJ{call}}, false)
+				}
+			}
+		}
+		// unsegmented, for the group comparison
+		cfg := defaultCfg
+		cfg.Hook = "general"
+		runScn(c, Scn{World: w, Cfg: cfg, Oracle: "adchain", Chain: ch, Group: fmt.Sprintf("general|n=%d|stop=0|lim=0", n),
+			Calls: []CallJ{{T: "ad", PubHead: n}}}, false)
+	}
+}
+
+// ---------------------------------------------------------------------------
+// Syncer.Sync called directly with selectors from dagsync's exported builders
+
+func genSelectors(c *vlib.Ctx) {
+	counter := 0
+	for n := 1; n <= c.Pick(4, 7); n++ {
+		type wk struct {
+			w     []BlockJ
+			ch    []int
+			kinds []string
+		}
+		aw, ach := adWorld(n)
+		cw, cch := chunkWorld(n)
+		for _, x := range []wk{{aw, ach, []string{"withstop-prev"}}, {cw, cch, []string{"withstop-next", "dagsync", "stopnode-nil"}}} {
+			for _, kind := range x.kinds {
+				for root := 1; root <= n; root++ {
+					k := int64(root)
+					for _, stop := range append([]int{0, syncdrv.ForeignRank}, x.ch...) {
+						for _, lim := range uniq([]int64{0, 1, 2, k, k + 1}) {
+							counter++
+							runScn(c, Scn{World: x.w, Cfg: defaultCfg, Pre: subsetOf(n, (counter*3)%(1<<n)), Oracle: "selchain", Chain: x.ch,
+								Group: fmt.Sprintf("sel|%s|n=%d|root=%d|stop=%d|lim=%d", map[bool]string{true: "ad", false: "chunk"}[kind == "withstop-prev"], n, root, stop, lim),
+								Calls: []CallJ{{T: "sel", Sel: kind, Ent: root, Stop: stop, Depth: lim}}}, false)
+						}
+					}
+				}
+			}
+		}
+	}
+	// trees and the non-strict advertisement world under the "recurse all" builders
+	tree := []BlockJ{{T: "node"}, {T: "node"}, {T: "node"}, {T: "node", Direct: []int{1}, Nested: []int{2, 3}}, {T: "node", Direct: []int{4}}}
+	ads := []BlockJ{{T: "chunk"}, {T: "chunk", Next: 1}, {T: "ad", Entries: 2}, {T: "ad", Prev: 3, Entries: 2}}
+	for _, kind := range []string{"dagsync", "stopnode-nil"} {
+		for _, lim := range []int64{0, 1, 2, 3} {
+			for _, stop := range []int{0, 1, 2, 3, 4} {
+				counter++
+				tw := tree
+				if lim != 0 {
+					// a depth limit counts node levels: a link nested in a list costs two, which the
+					// model (one level per block) does not follow; limited walks use direct links only
+					tw = []BlockJ{{T: "node"}, {T: "node"}, {T: "node"}, {T: "node", Direct: []int{1, 2, 3}}, {T: "node", Direct: []int{4}}}
+				}
+				runScn(c, Scn{World: tw, Cfg: defaultCfg, Pre: subsetOf(5, (counter*7)%32), Oracle: "none",
+					Calls: []CallJ{{T: "sel", Sel: kind, Ent: 5, Stop: stop, Depth: lim}}}, false)
+				if stop != 4 {
+					runScn(c, Scn{World: ads, Cfg: defaultCfg, Pre: subsetOf(4, (counter*5)%16), Oracle: "none",
+						Calls: []CallJ{{T: "sel", Sel: kind, Ent: 4, Stop: stop, Depth: lim}}}, false)
+				}
+			}
+		}
+	}
+	// the retryable client re-requests a block the publisher fails to serve (observation)
+	w4, ch4 := adWorld(3)
+	cfg := defaultCfg
+	cfg.Retry = 2
+	o := execScn(Scn{World: w4, Hidden: []int{2}, Cfg: cfg, Oracle: "none", Chain: ch4, Calls: []CallJ{{T: "ad", PubHead: 3}}})
+	c.Eval()
+	if len(o.calls) == 1 && o.calls[0].ret == "err" {
+		c.Count(fmt.Sprintf("observation:retryable-client-requests-of-a-failing-block=%d", len(o.calls[0].reqs)-1))
+	} else {
+		failOnce(c, "retry-missing", "retry:missing-block-no-error", "with the retryable client a sync that needs an unavailable block did not fail", nil)
 	}
 }
